@@ -212,3 +212,76 @@ def mk_tree(spec):
     if children is None:
         return DerivationTree(label, None)
     return DerivationTree(label, tuple(mk_tree(c) for c in children))
+
+
+# --------------------------------------------------------------------------
+# [decoder] support: a bounded vector of choice integers <-> a derivation tree of a fixed grammar
+
+def canonical_grammar(grammar):
+    return {n: [[t for t in split_expansion(a)] if a != "" else [""] for a in alts] for n, alts in grammar.items()}
+
+
+def min_closing(grammar):
+    """nonterminal -> index of an alternative on a smallest closed derivation (fixpoint on node counts)"""
+    can = canonical_grammar(grammar)
+    cost = {n: None for n in can}
+    best = {n: 0 for n in can}
+    changed = True
+    while changed:
+        changed = False
+        for n, alts in can.items():
+            for i, alt in enumerate(alts):
+                c = 1
+                ok = True
+                for t in alt:
+                    if t in can:
+                        if cost[t] is None:
+                            ok = False
+                            break
+                        c += cost[t]
+                    else:
+                        c += 1
+                if ok and (cost[n] is None or c < cost[n]):
+                    cost[n], best[n] = c, i
+                    changed = True
+    return best
+
+
+def max_choice(grammar, allow_open: bool) -> int:
+    return max(len(a) for a in grammar.values()) + (1 if allow_open else 0)
+
+
+def decode_tree(grammar, start: str, choices, allow_open: bool, close_rest: bool = True, budget: int = 200):
+    """Pre-order expansion of `start`: the i-th expanded nonterminal takes alternative choices[i];
+    the value len(alternatives) means 'leave this leaf open' (only if allow_open).  A choice that is out
+    of range for its node rejects the vector (IgnoreAttempt), so vectors and trees correspond 1:1.
+    When the choices are used up the remaining nonterminals are left open (allow_open) or closed with a
+    smallest expansion.  Returns a nested spec for mk_tree()."""
+    can = canonical_grammar(grammar)
+    best = min_closing(grammar)
+    pos = 0
+    count = 0
+
+    def expand(label):
+        nonlocal pos, count
+        count += 1
+        if count > budget:
+            raise IgnoreAttempt()
+        alts = can[label]
+        if pos < len(choices):
+            c = choices[pos]
+            pos += 1
+            if allow_open and c == len(alts):
+                return (label, None)
+            if not (0 <= c < len(alts)):
+                raise IgnoreAttempt()
+        else:
+            if allow_open and not close_rest:
+                return (label, None)
+            c = best[label]
+        return (label, [expand(t) if t in can else t for t in alts[c]])
+
+    spec = expand(start)
+    if pos < len(choices):
+        raise IgnoreAttempt()   # unused choices: the same tree is reached by the shorter vector
+    return spec
